@@ -39,6 +39,10 @@ func init() {
 	Register(&Rule{ID: "R-CLEAN-6", Props: []string{"C11", "C09"}, Floor: 5,
 		Doc: "only the creator removes a data file: every os.Remove of Handler.path in lib/file is guarded by openType == ForCreate (or an ownership flag set only after a successful create); while a ForCreate handler is under construction, a closer that can execute such a removal is called only where the go-file Create of the data path is known to have succeeded, and the constructor returns success only in that state",
 		Run: ruleClean6})
+	Register(&Rule{ID: "R-CLEAN-7", Props: []string{"C11", "C09"}, Floor: 5,
+		Doc:      "ownership hand-over: in every function of lib/file that builds a Handler and in every method of *Handler, a *ControlFile or *os.File obtained from a call that can create / open a file is, on every path from the successful call, stored into one of the handler fields the terminal methods release (fp, lockFile, tempFile, rlockFile — directly or by a lib/file helper that always stores it), released itself (its Close / go-file Close), or returned to the caller, before any direct clean-up call on the handler (closeIsolatedHandler, close …) and before any return: a clean-up can only release what the handler already owns, so a resource that is still a local when a later step fails survives the process",
+		Controls: []string{"CtlLocalLockNotHandedOver"},
+		Run:      ruleClean7})
 }
 
 // ---------------------------------------------------------------------------
@@ -640,3 +644,195 @@ func ruleClean6(c *Ctx) {
 }
 
 var _ = sort.Strings
+
+// ---------------------------------------------------------------------------
+// R-CLEAN-7: a created resource is handed to the handler before anything can fail
+
+var handlerResourceFields = map[string]bool{fldHFp: true, fldHLock: true, fldHTemp: true, fldHRLock: true}
+
+func hasOrigin(v, want ssa.Value) bool {
+	if v == want {
+		return true
+	}
+	for _, o := range core.Origins(v, false) {
+		if o == want {
+			return true
+		}
+	}
+	return false
+}
+
+// storesIntoHandler: the instruction stores r into a released field of a Handler.
+func storesIntoHandler(in ssa.Instruction, r ssa.Value) bool {
+	st, ok := in.(*ssa.Store)
+	if !ok || !hasOrigin(st.Val, r) {
+		return false
+	}
+	return addrIsHandlerSlot(st.Addr, 0)
+}
+
+// addrIsHandlerSlot: the address is one of the released Handler fields —
+// directly, as a phi of such addresses, or as the result of a lib/file helper
+// every return of which yields such an address (`slot := h.controlFileSlot(t);
+// *slot = f`).
+func addrIsHandlerSlot(addr ssa.Value, depth int) bool {
+	os := core.Origins(addr, false)
+	if len(os) == 0 || depth > 2 {
+		return false
+	}
+	for _, o := range os {
+		switch x := o.(type) {
+		case *ssa.FieldAddr:
+			if !handlerResourceFields[core.FieldOwner(x)] {
+				return false
+			}
+		case *ssa.Call, *ssa.Extract:
+			call, idx, ok := core.ExtractOf(x)
+			if !ok {
+				return false
+			}
+			f := core.StaticCallee(call)
+			if f == nil || f.Blocks == nil || core.Short(core.FnPkg(f).Pkg.Path()) != "lib/file" {
+				return false
+			}
+			rets := realReturns(f)
+			if len(rets) == 0 {
+				return false
+			}
+			for _, r := range rets {
+				vals := returnOperandDeep(r, idx)
+				if len(vals) == 0 {
+					return false
+				}
+				for _, v := range vals {
+					if v == nil || !addrIsHandlerSlot(v, depth+1) {
+						return false
+					}
+				}
+			}
+		default:
+			return false
+		}
+	}
+	return true
+}
+
+// handsOverByHelper: a lib/file function that receives r and stores that
+// parameter into a released Handler field on every path.
+func handsOverByHelper(p *core.Prog, k ssa.CallInstruction, r ssa.Value) bool {
+	f := core.StaticCallee(k)
+	if f == nil || f.Blocks == nil || !p.InPkg(f, "lib/file") {
+		return false
+	}
+	for i, a := range k.Common().Args {
+		if !hasOrigin(a, r) || i >= len(f.Params) {
+			continue
+		}
+		par := f.Params[i]
+		stores := false
+		for _, b := range f.Blocks {
+			for _, in := range b.Instrs {
+				if storesIntoHandler(in, par) {
+					stores = true
+				}
+			}
+		}
+		if stores && len(returnsWithout(f, nil, func(in ssa.Instruction) bool { return storesIntoHandler(in, par) }, nil)) == 0 {
+			return true
+		}
+	}
+	return false
+}
+
+// releasesValue: the call closes / removes the resource r itself.
+func releasesValue(p *core.Prog, k ssa.CallInstruction, r ssa.Value) bool {
+	if _, isDefer := k.(*ssa.Defer); isDefer {
+		return false
+	}
+	mine := false
+	for _, a := range callArgs(k) {
+		if hasOrigin(a, r) {
+			mine = true
+		}
+	}
+	if !mine {
+		return false
+	}
+	return calleeIn(p, k, fnCtlClose, fnCtlCloseErr, fnGoClose, "(*os.File).Close")
+}
+
+func ruleClean7(c *Ctx) {
+	p := c.P
+	var fns []*ssa.Function
+	seen := map[*ssa.Function]bool{}
+	for _, fn := range handlerCtors(c) {
+		if !seen[fn] {
+			seen[fn] = true
+			fns = append(fns, fn)
+		}
+	}
+	for _, fn := range p.FuncsIn(false, "lib/file") {
+		if recv := fn.Signature.Recv(); recv != nil && fn.Parent() == nil && core.NamedOf(recv.Type()) == "lib/file.Handler" && !seen[fn] {
+			seen[fn] = true
+			fns = append(fns, fn)
+		}
+	}
+	sortFuncs(p, fns)
+	for _, fn := range fns {
+		cnt := map[string]int{}
+		for _, k := range core.Calls(fn) {
+			if _, isCall := k.(*ssa.Call); !isCall || !acquires(p, k) {
+				continue
+			}
+			r := resultOf(k, 0)
+			if r == nil || !(core.NamedOf(r.Type()) == "lib/file.ControlFile" || isOsFilePtr(r.Type())) {
+				continue
+			}
+			c.Sites++
+			c.Touch(fn)
+			lbl := acqLabel(c, k)
+			cnt[lbl]++
+			if cnt[lbl] > 1 {
+				lbl += " " + ordinal(cnt[lbl])
+			}
+			what := "descriptor"
+			if !isOsFilePtr(r.Type()) {
+				what = "control file"
+			}
+			key := c.KeyAt(fn, what+" of "+lbl+" handed to the handler before any clean-up or exit")
+			if errValueOf(k) == nil {
+				c.Unknown(key, c.Pos(k), "the acquiring call has no error result: its success edge cannot be identified")
+				continue
+			}
+			bad := ""
+			walkAfter(k, failureEdgeOf(k), func(in ssa.Instruction) bool {
+				if storesIntoHandler(in, r) {
+					return false
+				}
+				switch x := in.(type) {
+				case *ssa.Defer:
+					return true // runs at exit: the state at the returns below decides
+				case ssa.CallInstruction:
+					if releasesValue(p, x, r) || handsOverByHelper(p, x, r) {
+						return false
+					}
+					if isHandlerCleanup(p, x) && bad == "" {
+						bad = fmt.Sprintf("the clean-up %s at %s runs while the %s created at %s is still only a local variable: the handler does not own it, so the clean-up cannot release it and nothing else ever will (the %s survives the process)", describeCall(p, x), c.Pos(x), what, c.Pos(k), map[string]string{"descriptor": "flock / descriptor", "control file": "control file on disk"}[what])
+					}
+				case *ssa.Return:
+					returned := false
+					for _, res := range x.Results {
+						if hasOrigin(res, r) {
+							returned = true
+						}
+					}
+					if !returned && bad == "" {
+						bad = fmt.Sprintf("the return at %s is reachable after the %s was created at %s without it having been stored into the handler, released or returned", c.Pos(x), what, c.Pos(k))
+					}
+				}
+				return true
+			})
+			c.Check(bad == "", key, c.Pos(k), "on every path from the success edge the "+what+" is stored into a released handler field (or released / returned) before any clean-up call or return", bad)
+		}
+	}
+}
